@@ -41,8 +41,8 @@ ASSUMES = [
     "ambiguity returned by the real kernel",
     "np.argsort in compute_interval_bounds is modelled by its contract (a permutation: min/max index of the "
     "selected set); numba's nanquantile / numpy's percentile by linear interpolation between order statistics",
-    "std_intensity: the model returns the window variance (the square root is not rational); band^2 is compared "
-    "with it; the 1e-15 relative zeroing of tiny variances is below the exact-domain resolution",
+    "std_intensity: the model band holds the window variance (the square root is not rational); band^2 is "
+    "compared with it (NaN pattern exactly); the float 10**-15 of the tiny-variance zeroing is data",
     "confidence_steps_transparent is proved over abstract step functions (non-confidence steps do not read the "
     "confidence bands to produce cost volume / disparity / mask); on the real code it is checked by impl-vs-impl "
     "pipeline runs, not proved",
@@ -163,6 +163,9 @@ def gen_case(rng, tiny=False):
                                                                   "cfg": {"confidence_method": "ambiguity"}}]
     c["window"] = 1 if tiny else rng.choice([w for w in (1, 3, 5) if w <= min(nr, nc)])
     c["img"] = [[rng.randrange(0, 256) for _ in range(nc)] for _ in range(nr)]
+    if not tiny and rng.random() < 0.2:            # NaN pixels in the left image (np.nancumsum counts them as 0)
+        for _ in range(rng.choice([1, 1, 2])):
+            c["img"][rng.randrange(nr)][rng.randrange(nc)] = None
     # earlier bands: cv without / with bands; disp None (as the state machine calls it) / without / with bands
     c["cv_bands"] = rng.choice([0, 0, 0, 1, 2])
     c["disp"] = rng.choice(["none", "none", "none", "nobands", "bands"])
@@ -202,7 +205,8 @@ def make_datasets(case):
                           coords={"row": np.arange(nr), "col": np.arange(nc)})
         if case["disp"] == "bands":
             disp["confidence_measure"] = bands(2, "disp")
-    img = pu.image_dataset(np.array(case["img"], dtype=np.float32), disp=(int(np.floor(case["disps"][0])),
+    img = pu.image_dataset(np.array([[np.nan if x is None else x for x in row] for row in case["img"]],
+                                    dtype=np.float32), disp=(int(np.floor(case["disps"][0])),
                                                                           int(np.ceil(case["disps"][-1]))))
     return cv, disp, img
 
@@ -575,26 +579,33 @@ def run_kernel_case(ctx, case, pend):
             band = new[0]
             w = case["window"]
             off = (w - 1) // 2
-            im = np.array(case["img"], dtype=np.float64)
+            im = np.array([[np.nan if x is None else x for x in row] for row in case["img"]], dtype=np.float64)
             want = np.full((nr, nc), np.nan)
             for r in range(off, nr - off):
                 for c in range(off, nc - off):
-                    want[r, c] = np.std(im[r - off:r + off + 1, c - off:c + off + 1])
+                    win = im[r - off:r + off + 1, c - off:c + off + 1]
+                    if np.isnan(win).any():
+                        # a NaN pixel in the window: the property text does not say; only the model is compared
+                        ctx.count("std_windows_with_nan_pixel")
+                        want[r, c] = band[r, c]
+                    else:
+                        want[r, c] = np.std(win)
             if not np.allclose(band, want, rtol=1e-5, atol=1e-4, equal_nan=True):
                 ctx.violation("std_def", f"intensity_std band {band.tolist()} is not the standard deviation of the "
-                              f"{w}x{w} left window (image {case['img']})", replay)
+                              f"{w}x{w} left window, NaN on the border (image {case['img']})", replay)
 
-            def chk(res, band=band, off=off, name=name):
+            def chk(res, band=band, name=name):
+                # model: the whole band, None = NaN (border), Some v = the (zeroed) window variance
                 var = [[core.q_of(x) for x in row] for row in res]
-                inner = band[off:nr - off, off:nc - off] if off else band
-                ok = inner.shape == (len(var), len(var[0]) if var else 0) and all(
-                    core.close(float(inner[r, c]) ** 2, var[r][c], rel=2.0 ** -16, abs_=2.0 ** -16)
-                    for r in range(len(var)) for c in range(len(var[0])))
-                border = np.ones((nr, nc), dtype=bool)
-                border[off:nr - off, off:nc - off] = False
-                ok = ok and bool(np.all(np.isnan(band[border])))
-                return (ok, band.tolist(), [[float(x) for x in row] for row in var]), "std:" + name, replay
-            pend.ask(8, [w, [[F(x) for x in row] for row in case["img"]]], chk)
+                ok = len(var) == nr and all(len(row) == nc for row in var) and all(
+                    (np.isnan(band[r, c]) if var[r][c] is None else
+                     (not np.isnan(band[r, c])) and core.close(float(band[r, c]) ** 2, var[r][c],
+                                                              rel=2.0 ** -16, abs_=2.0 ** -16))
+                    for r in range(nr) for c in range(nc))
+                return (ok, band.tolist(), [[None if x is None else float(x) for x in row] for row in var]), \
+                    "std:" + name, replay
+            pend.ask(11, [core.to_q(10 ** (-15)), w, [[None if x is None else F(x) for x in row]
+                                                      for row in case["img"]]], chk)
 
     # ---- WTA on the volume the confidence steps saw: bracket (spec) and model WTA (correspondence)
     try:
